@@ -16,9 +16,10 @@ def obligation_key(target, ob):
 
 def _verify_target(args):
     """worker: (here, repo, qual, tier) -> result dict (no z3 objects)"""
-    here, repo, qual, tier = args
+    here, repo, qual, tier = args[:4]
+    shard, nshards = (args[4], args[5]) if len(args) > 4 else (0, 1)
     t0 = time.time()
-    out = {"target": qual, "obligations": [], "faults": [], "unsupported": None}
+    out = {"target": qual, "obligations": [], "faults": [], "unsupported": None, "shard": shard}
     try:
         import z3
         from pyvc.engine import Engine, Unsupported
@@ -33,14 +34,17 @@ def _verify_target(args):
             obls, sha, fn = eng.verify_function(c)
         except (Unsupported, SpecError) as e:
             out["unsupported"] = "%s: %s" % (type(e).__name__, e)
+            if os.environ.get("PYVC_TB"): out["unsupported"] += "\n" + traceback.format_exc()
             out["wall_s"] = round(time.time() - t0, 2)
             return out
         out["sha"] = sha; out["lines"] = "%d-%d" % (fn.lineno, fn.end_lineno); out["paths"] = eng.n_paths
         seen = {}
-        for ob in obls:
-            discharge(ob, quick=(tier == "quick"))
+        out["generated"] = len(obls)
+        for idx, ob in enumerate(obls):
             key = obligation_key(c.target, ob)
             seen[key] = seen.get(key, 0) + 1
+            if idx % nshards != shard: continue
+            discharge(ob, quick=(tier == "quick"))
             rec = {"id": "%s#%d" % (key, seen[key]), "key": key, "target": c.target, "kind": ob["kind"], "label": ob["label"],
                    "clause": ob.get("text"), "status": ob["status"], "backend": ob.get("backend"), "time_s": ob.get("time_s"),
                    "path": "/".join(ob["trace"]), "line": ob.get("line")}
@@ -56,7 +60,7 @@ def _verify_target(args):
             out["obligations"].append(rec)
         # canaries: every reachable exit must stay satisfiable (contradictory assumptions would prove anything)
         can = {"exits": 0, "refuted": 0, "proved": []}
-        for kind, tag, st in eng.exits:
+        for kind, tag, st in (eng.exits if shard == 0 else []):
             can["exits"] += 1
             s = z3.Solver(); s.set("timeout", 1500 if tier == "quick" else 20000); s.set("smt.mbqi", False)
             s.add(*eng.axioms); s.add(*st.pc)
@@ -65,7 +69,7 @@ def _verify_target(args):
                 can["proved"].append("/".join(st.trace))
             else:
                 can["refuted"] += 1
-        if eng.n_paths == 0 or can["exits"] == 0:
+        if eng.n_paths == 0 or (shard == 0 and can["exits"] == 0):
             out["faults"].append("%s: no feasible exit (vacuous contract?)" % qual)
         if can["proved"]:
             # an exit that is infeasible after all is only pruned late; it is a fault only if NO exit is satisfiable
@@ -74,6 +78,7 @@ def _verify_target(args):
         out["canaries"] = {"exits": can["exits"], "satisfiable": can["refuted"]}
         if not obls:
             out["faults"].append("%s: zero obligations generated" % qual)
+        out["paths"] = eng.n_paths
     except Exception:
         out["faults"].append("worker crashed on %s:\n%s" % (qual, traceback.format_exc()))
     out["wall_s"] = round(time.time() - t0, 2)
@@ -130,12 +135,27 @@ def run_property(prop, tier, repo, here, targets=None, procs=None):
         return None
     t0 = time.time()
     quals = targets or pdef["targets"]
-    jobs = [(_verify_target, (here, repo, q, tier)) for q in quals] + \
+    shards = pdef.get("shards", {})
+    jobs = [(_verify_target, (here, repo, q, tier, i, shards.get(q, 3))) for q in quals for i in range(shards.get(q, 3))] + \
            [(_verify_lemma, (here, repo, l, tier)) for l in (pdef.get("lemmas", []) if not targets else [])]
     ctx = mp.get_context("fork")
-    with ctx.Pool(min(procs or 14, max(1, len(jobs)))) as pool:
+    with ctx.Pool(min(procs or 15, max(1, len(jobs)))) as pool:
         asyncs = [pool.apply_async(f, (a,)) for f, a in jobs]
-        results = [a.get(timeout=3600) for a in asyncs]
+        raw = [a.get(timeout=3600) for a in asyncs]
+    # merge the shards of one target
+    results, by_target = [], {}
+    for r in raw:
+        if r.get("lemma"): results.append(r); continue
+        m = by_target.get(r["target"])
+        if m is None:
+            by_target[r["target"]] = r; results.append(r)
+        else:
+            m["obligations"].extend(r["obligations"]); m["faults"].extend(f for f in r["faults"] if f not in m["faults"])
+            m["wall_s"] = max(m["wall_s"], r["wall_s"])
+            if r.get("canaries") and r.get("shard") == 0: m["canaries"] = r["canaries"]
+            if m["unsupported"] is None: m["unsupported"] = r["unsupported"]
+    for r in results:
+        r["obligations"].sort(key=lambda o: o["id"])
     base = set(load_baseline(here).get(prop, []))
     obligations, faults, functions, lemmas, backends, solver_time = [], [], [], [], {}, 0.0
     canaries = {"exits": 0, "satisfiable": 0}
